@@ -70,6 +70,7 @@ const (
 	errSortDAG                = "cannot sort DAG"
 	errFmtMissingDependency   = "missing package (%s) is not a dependency"
 	errInvalidConstraint      = "version constraint on dependency is invalid"
+	errInvalidInstalledVer    = "installed version of dependency is not a semantic version"
 	errInvalidDependency      = "dependency package is not valid"
 	errFindDependency         = "cannot find dependency version to install"
 	errGetPullConfig          = "cannot get image pull secret from config"
@@ -532,7 +533,14 @@ func (r *Reconciler) findDependencyVersionToUpdate(ctx context.Context, ref name
 	}
 
 	sort.Sort(semver.Collection(availableVersions))
-	currentVersion := semver.MustParse(insVer)
+	// The installed version isn't necessarily a semantic version - the package
+	// may be pinned by digest, or use a tag like "latest". We can't tell which
+	// versions are newer or older than such a version.
+	currentVersion, err := semver.NewVersion(insVer)
+	if err != nil {
+		log.Debug(errInvalidInstalledVer, "error", err)
+		return "", errors.Wrap(err, errInvalidInstalledVer)
+	}
 	var targetVersion *semver.Version
 
 	// We aim to find the lowest version that satisfies all parent constraints and is greater than the current version.
